@@ -31,6 +31,15 @@ def _loop_range(it):
     desc = False
     if isinstance(it, ast.Call) and norm(it.func) == 'reversed' and len(it.args) == 1:
         desc, it = True, it.args[0]
+    if isinstance(it, ast.Call) and norm(it.func) == 'range' and len(it.args) == 3 and not it.keywords and not desc:
+        # range(a, b, -1) counts down from a to b + 1; range(a, b, 1) is range(a, b)
+        from ..typestate import literal_int
+        st_ = literal_int(it.args[2])
+        ra = [try_affine(a) for a in it.args[:2]]
+        if st_ not in (1, -1) or any(a is None for a in ra):
+            return None
+        one = Affine.const(1)
+        return (ra[0], ra[1] + one, -1) if st_ == -1 else (ra[0], ra[1] - one, 1)
     if not (isinstance(it, ast.Call) and norm(it.func) == 'range' and 1 <= len(it.args) <= 2 and not it.keywords):
         return None
     ra = [try_affine(a) for a in it.args]
@@ -595,8 +604,10 @@ def ordering_rules(chk, repo, rid):
                 i = norm(lp[0].target)
                 init = [s for s in ast.walk(fi.node) if isinstance(s, ast.Assign) and norm(s.targets[0]) == acc and
                         norm(s.value) == 'self.A[0]']
-                ok = [norm(a) for a in c.args] == [acc, f'self.A[{i}]'] and norm(lp[0].iter) == 'range(1, len(self.A))' \
-                    and len(init) >= 1
+                rg = _loop_range(lp[0].iter)
+                full = rg is not None and rg[2] == 1 and str(rg[0]) == '1' and \
+                    str(rg[1]) in ('len(self.A) - 1', 'self.nsites - 1', '-1 + len(self.A)', '-1 + self.nsites')
+                ok = [norm(a) for a in c.args] == [acc, f'self.A[{i}]'] and full and len(init) >= 1
         chk.ob(rid, where(repo, fi, fi.node), f'{fi.name}: the {what} is accumulated left to right with the accumulated '
                f'tensor as first operand (site 0 most significant)', ok, '', key=f'{rid}|{q}|order')
         n += 1
